@@ -225,7 +225,13 @@ def base_texts(tier):
 
 def gen_cases(tier):
     for i, (label, text) in enumerate(base_texts(tier)):
-        yield {"kind": "base", "label": label, "text": text}
+        if tier != "quick" and len(text) > 400:
+            # long corpus files have tens of thousands of mutants: slice them so that no unit dominates the run
+            total = sum(1 for _ in mutants(text))
+            for lo in range(0, total, 4000):
+                yield {"kind": "base", "label": "%s[%d:%d]" % (label, lo, lo + 4000), "text": text, "lo": lo, "hi": lo + 4000}
+        else:
+            yield {"kind": "base", "label": label, "text": text}
     yield {"kind": "raw"}
     yield {"kind": "catalogue"}
     yield {"kind": "nesting", "depth": 2 if tier == "quick" else 3}
@@ -413,7 +419,10 @@ def check_case(case):
         v, stage = check_text(case["text"])
         return {"viol": [v] if v else [], "n": 1}
     if k == "base":
-        return run_many(mutants(case["text"]), case["label"])
+        ms = mutants(case["text"])
+        if "lo" in case:
+            ms = itertools.islice(ms, case["lo"], case["hi"])      # a slice of a long base (thorough tier): balanced units
+        return run_many(ms, case["label"])
     if k == "raw":
         texts = []
         for n in range(0, 4):
